@@ -342,42 +342,35 @@ func ruleA4(c *Ctx, id string) {
 // commit funnel must undo such a transaction like an abort.
 func ruleRefused(c *Ctx, id string) {
 	V, P, R := c.V, c.P, c.R
-	R.Rule(id, "a commit the journal refuses is undone like an abort: on the false edge of jrnl.CommitWait in the commit funnel the cached inodes are dropped before the locks are released, AllocTxn.PostAbort runs, and PostCommit does not", 3)
-	if V.commitWait == nil || V.JrnlCommitWait == nil {
+	R.Rule(id, "a commit the journal refuses is undone like an abort: on every path of a commit terminator on which jrnl.CommitWait answered false (or its answer is not tested) the cached inodes are dropped before the locks are released, AllocTxn.PostAbort runs, and PostCommit does not", 3)
+	if V.JrnlCommitWait == nil {
 		return
 	}
-	f := funnelBody(c, V.commitWait, funcIs(V.JrnlCommitWait)).Fn
-	R.Analysed[FuncName(f)] = true
-	inv := invalidates(c)
-	pa := P.NewAlways(callTo(V.PostAbort))
-	pc := P.NewAlways(callTo(V.PostCommit))
-	rel := P.NewAlways(callTo(V.releaseInodes))
-	calls := P.CallsIn(f, funcIs(V.JrnlCommitWait))
+	cp := commitProtocol(c)
+	var calls []*cpRefused
+	for _, rf := range cp.refused {
+		calls = append(calls, rf)
+	}
+	sort.Slice(calls, func(i, j int) bool { return calls[i].call.Pos() < calls[j].call.Pos() })
 	if len(calls) == 0 {
-		R.Fail(id, "fstxn.commitWait|journal commit", P.Pos(f.Pos()), "the funnel calls jrnl.CommitWait", "no call")
+		R.Fail(id, "fstxn|journal commit", "?", "the commit funnel calls jrnl.CommitWait", "no call in the server packages")
 		return
 	}
-	for _, call := range calls {
-		cv := call.(*ssa.Call)
-		okEdge := boolEdge(f, cv, true)
-		drops := MustAfterE(f, inv, nil, okEdge)(call)
-		R.Check(drops, id, "fstxn.commitWait|refused commit drops the cached inodes", P.Pos(call.Pos()), "every path on which CommitWait returned false invalidates the cached objects of the inodes the transaction holds", "must-follow except on the result == true edge", "the journal refused the transaction, the reply is an error, but the inodes modified in place stay in the cache: GETATTR shows the size of a WRITE that failed, until the next restart")
-		undo := MustAfterE(f, pa.Instr, nil, okEdge)(call)
-		R.Check(undo, id, "fstxn.commitWait|refused commit returns its allocations", P.Pos(call.Pos()), "every path on which CommitWait returned false runs AllocTxn.PostAbort", "must-follow except on the result == true edge", "blocks and inodes allocated by a transaction that was never committed stay marked in the in-memory allocators")
-		noPub, order := true, true
-		for _, b := range f.Blocks {
-			for _, in := range b.Instrs {
-				if in == call {
-					continue
-				}
-				if pc.Instr(in) && !everyPathTakes(f, b, okEdge) {
-					noPub = false
-				}
-				if rel.Instr(in) && !everyPathTakes(f, b, okEdge) && !MustBefore(f, inv)(in) {
-					order = false
-				}
-			}
+	for _, rf := range calls {
+		f := rf.holder
+		R.Analysed[FuncName(f)] = true
+		key := FuncName(ownerOf(f))
+		pos := P.Pos(rf.call.Pos())
+		if !rf.seen {
+			R.Fail(id, key+"|refused commit explored", pos, "the jrnl.CommitWait call is reached from a commit terminator", "not reached on any explored path")
+			continue
 		}
-		R.Check(noPub && order, id, "fstxn.commitWait|refused commit publishes nothing", P.Pos(call.Pos()), "PostCommit (frees become reusable) runs only on the result == true side; on the other side the locks are released only after the invalidation", "edge cut", "frees of a transaction that was never committed are applied to the in-memory allocators (the blocks are still in use on disk), or the locks are released while the cache still holds the uncommitted inodes")
+		R.Check(rf.drops == "", id, key+"|refused commit drops the cached inodes", pos, "every path on which CommitWait returned false invalidates the cached objects of the inodes the transaction holds", "holds on every explored path", "the journal refused the transaction, the reply is an error, but the inodes modified in place stay in the cache: GETATTR shows the size of a WRITE that failed, until the next restart ("+rf.drops+")")
+		R.Check(rf.undo == "", id, key+"|refused commit returns its allocations", pos, "every path on which CommitWait returned false runs AllocTxn.PostAbort", "holds on every explored path", "blocks and inodes allocated by a transaction that was never committed stay marked in the in-memory allocators ("+rf.undo+")")
+		why := rf.pub
+		if why == "" {
+			why = rf.order
+		}
+		R.Check(rf.pub == "" && rf.order == "", id, key+"|refused commit publishes nothing", pos, "PostCommit (frees become reusable) runs only when the journal accepted the commit; otherwise the locks are released only after the invalidation", "holds on every explored path", "frees of a transaction that was never committed are applied to the in-memory allocators (the blocks are still in use on disk), or the locks are released while the cache still holds the uncommitted inodes ("+why+")")
 	}
 }
